@@ -16,16 +16,21 @@ SPEC = {
         "consensus/ucon/voter.go:Voter.processVoteMsg",
         "consensus/ucon/vote_bls.go:VoteBLSMgr.SignVote",
     ],
-    "level_text": "Coq theorems over all evidence lists, ledgers, look-back chains and signature oracles: an honest validator can be slashed only through one of the listed finding classes (refuted in full strength, with witnesses); real equivocation is always acted on; doPenalize runs at most once per validator and block and an evidence acts at one height; takePenalty never exceeds the amount, never drives a source negative and accounts for every unit; the validator's replay of the builder's slash data reproduces the builder's effects outside the zero-penalty class. The hand model mirrors processDoubleSignV5 / processEvidences / slashing / replaySlashing / doPenalize / takePenalty / LookBackVldReaderForRound and is compared inside Coq with the real code (real BLS keys and signatures, real state database and header store) on hundreds of adversarial cases per run; the votes evidences are assembled from come from real honest Voter runs (updateContext / judgeVoteCount / signVote / VoteBLSMgr.SignVote) on the same world, and the honest double-vote detector (processVoteMsg) is checked to post exactly the evidences for two different hashes of one kind.",
+    "level_text": "Coq theorems over all evidence lists, ledgers, look-back chains and signature oracles: an honest validator can be slashed only through one of the listed finding classes (refuted in full strength, with witnesses) - also with the honest vote set instantiated by histories of C03's Voter model and the one-vote-per-kind bound discharged by C03_voter_one_vote / C02_one_vote; real equivocation is always acted on; doPenalize runs at most once per validator and block and an evidence acts at one height; takePenalty never exceeds the amount, never drives a source negative and accounts for every unit; the validator's replay of the builder's slash data reproduces the builder's effects outside the zero-penalty class. The hand model mirrors processDoubleSignV5 / processEvidences / slashing / replaySlashing / doPenalize / takePenalty / LookBackVldReaderForRound and is compared inside Coq with the real code (real BLS keys and signatures, real state database and header store) on hundreds of adversarial cases per run; the votes evidences are assembled from come from real honest Voter runs (updateContext / judgeVoteCount / signVote / VoteBLSMgr.SignVote) on the same world, and the honest double-vote detector (processVoteMsg) is checked to post exactly the evidences for two different hashes of one kind.",
     "level_note": "Trusted: Coq kernel + vm_compute; BLS enters as a function with the ideal-signature hypothesis; fidelity of the hand model rests on the differential check (reach reported in evidence); uint64 wrap-around, RLP decoding and the ValidatorsStat bookkeeping are outside the model; two findings are fixed in /repo (0c3d6f7, e1d256e; their witnesses are regression cases), two stay open in known_findings.json (cross-kind pair, next-index pair: the vote kind is not signed) with witnesses in corpus/C05 and a write-up in fixes/.",
     "harness": "c05",
     "hooks": ["core/zz_verif_c05.go", "staking/zz_verif_c05.go", "consensus/ucon/zz_verif_c05.go"],
     "translators": [["params", "-out", "{gen}/C05Params.v"]],
     "coq_targets": ["C05/Model.vo", "C05/ProofsPenalty.vo", "C05/ProofsShares.vo", "C05/ProofsEvidence.vo", "C05/ProofsHonest.vo",
+                    # the voter-level guarantee is imported from C02 / C03 (not modified): build them first
+                    "C02/Model.vo", "C02/Proofs.vo", "C03/Model.vo", "C03/ProofsA.vo", "C03/ProofsB.vo", "C03/ProofsC.vo",
+                    "C03/ProofsD.vo", "C03/ProofsE.vo", "C03/Properties.vo", "C05/ProofsVoter.vo",
                     "gen/C05Params.vo", "C05/Bridge.vo", "C05/Properties.vo"],
+    "coq_dirs": ["C05", "C02", "C03", "Lib", "gen"],   # forbidden-vernacular scan covers the imported developments too
     "properties_v": "C05/Properties.v",
     "obligations": [
-        "C05_honest_safe_refuted", "C05_honest_safe_outside_now", "C05_single_hash_evidence_inert", "C05_honest_safe_outside", "C05_honest_record_kept", "C05_duplicate_class",
+        "C05_honest_safe_refuted", "C05_honest_safe_outside_now", "C05_single_hash_evidence_inert", "C05_voter_one_vote_per_kind", "C05_voter_safe_outside_now", "C05_voter_safe_outside", "C05_voter_record_kept", "C05_nonvacuous_voter",
+        "C05_honest_safe_outside", "C05_honest_record_kept", "C05_duplicate_class",
         "C05_real_equivocation_punished", "C05_once", "C05_once_token_bound", "C05_one_height",
         "C05_bound", "C05_shares", "C05_penalize_effects", "C05_builder_validator", "C05_builder_validator_outside", "C05_builder_validator_refuted_before_repair",
         "C05_real_params_ok", "C05_vote_kinds_agree", "C05_tree_is_repaired", "C05_nonvacuous_honest", "C05_nonvacuous_bound", "C05_nonvacuous_builder",
@@ -47,7 +52,7 @@ SPEC = {
         "the harness' measurement of which of the two repairs (0c3d6f7, e1d256e) the working tree contains (passed to the model as fx with every case and written to coq/gen/C05Params.v, where Bridge.v requires it to be fx_now)",
     ],
     "assumptions": [
-        "C02 (proved separately): an honest validator signs at most one vote per kind and (round, index), two for next-index - hypothesis one_vote_per_kind of the honest-validator theorems",
+        "one vote per kind and (round, index), two for next-index: a HYPOTHESIS only in the abstract theorems C05_honest_safe_outside(_now); DISCHARGED in C05_voter_safe_outside(_now), where the honest vote set is what histories of C03's Voter model post and the bound is C03_voter_one_vote / C02_one_vote (coq/C02, coq/C03 imported unchanged; their own model-to-code ties are those of the C02 / C03 checks)",
         "ideal BLS signatures (hypothesis unforgeable); distinct (hash, round, index) give distinct payloads (hash is 32 bytes, index 4 bytes)",
         "ledger entries are well formed for the bound theorems: Stake > 0, Stake >= SelfStake + sum of delegation stakes, stakes >= 0, delegators distinct (C08's invariant); outside it the model still mirrors the code (the harness generates such ledgers) but no bound is claimed",
         "a validator with Stake = 0 and a positive penalty makes takePenalty panic (division by zero); the model returns None, the harness matches the panic, the theorems carry v_stake <> 0",
